@@ -181,9 +181,42 @@ def gen_case(rng, tier):
     return {"schema": schema, "imports": imports}
 
 
+def gen_flag_case(rng, tier):
+    """the column mapping as the command line gives it (-dest-cols, -src-cols): built by the real
+    makeConfig; mappings it must refuse (a negative index, more source than destination columns,
+    an unknown destination column) and mappings it accepts (fewer source columns, a destination
+    column named twice: every record is then refused)"""
+    c = gen_case(rng, tier)
+    im = c["imports"][0]
+    c["imports"] = [im]
+    names = [s["name"] for s in c["schema"]]
+    k = rng.randrange(1, len(names) + 1)
+    dst = names[:k]
+    src = list(range(k))
+    variant = rng.choice(["valid", "valid", "more-src", "negative", "fewer-src", "unknown-dst", "dup-dst"])
+    if variant == "more-src":
+        src = src + [rng.randrange(0, k) for _ in range(rng.randrange(1, 3))]
+    elif variant == "negative":
+        src[rng.randrange(k)] = -rng.randrange(1, 4)
+    elif variant == "fewer-src" and k > 1:
+        src = src[:-1]
+    elif variant == "unknown-dst":
+        dst = dst[:-1] + ["nosuchcol"]
+    elif variant == "dup-dst" and k > 1:
+        dst = dst[:-1] + [dst[0]]
+    tyof = {s["name"]: s["type"] for s in c["schema"]}
+    im.update({"dst": dst, "src": [max(0, s) for s in src], "types": [tyof.get(d, "int") for d in dst],
+               "mode": "flags/" + variant, "fail_after": -1,
+               "flags": {"dst": ",".join(dst), "src": ",".join(str(s) for s in src)}, "flag_src": src})
+    if im["sep"] == '"':
+        im["sep"] = ","
+    return c
+
+
 def generate(rng, tier):
     n = 400 if tier == "quick" else 4000
-    return [gen_case(rng, tier) for _ in range(n)]
+    nf = 60 if tier == "quick" else 600
+    return [gen_case(rng, tier) for _ in range(n)] + [gen_flag_case(rng, tier) for _ in range(nf)]
 
 
 # ---------------------------------------------------------------------------------------------
@@ -218,6 +251,9 @@ EV = {"ok": "GOk", "err:malformed": "GErr ErrMalformed", "err:colcount": "GErr E
 
 
 def import_coq(im, o):
+    if o["cfg_route"] == "makeconfig:err":
+        # the mapping was refused: nothing may have been imported (an import of no records)
+        return "mkImport [] [] [] [] true [] [] %s []" % cq_list(cq_list(val_coq(v) for v in row) for row in o["table"])
     reader = []
     for e in o["reader"]:
         if e[0] == "rec":
@@ -232,7 +268,7 @@ def import_coq(im, o):
         cq_list("%d%%nat" % s for s in im["src"]),
         cq_list(TY_COQ[t] for t in im["types"]),
         cq_list(reader),
-        cq_bool(o["cfg_route"] == "catalog"),
+        cq_bool(o["cfg_route"] in ("catalog", "makeconfig")),
         cq_list(TY_CODE[t] for t in o["col_types"]),
         cq_list(EV.get(e, "GOther") for e in o["events"]),
         cq_list(cq_list(val_coq(v) for v in row) for row in o["table"]),
@@ -246,22 +282,53 @@ def case_coq(c, o):
 
 def driver_input(c):
     return {"schema": c["schema"],
-            "imports": [{"dst": im["dst"], "src": im["src"], "sep": im["sep"], "csv": "".join(im["lines"]),
-                         "fail_after": im["fail_after"], "types": im["types"]} for im in c["imports"]]}
+            "imports": [dict({"dst": im["dst"], "src": im["src"], "sep": im["sep"], "csv": "".join(im["lines"]),
+                              "fail_after": im["fail_after"], "types": im["types"]},
+                             **({"flags": im["flags"]} if im.get("flags") else {})) for im in c["imports"]]}
+
+
+DEAD = {"imports": None}
 
 
 def evaluate(ctx, cases, name):
-    ok, obs, lg = vlib.run_driver_parallel(ctx.bins["csvimport"], "csv", [driver_input(c) for c in cases])
+    ok, obs, lg = vlib.run_driver_parallel(ctx.bins["csvimport"], "csv", [driver_input(c) for c in cases], resilient=True)
     if not ok or len(obs) != len(cases):
         raise RuntimeError("csv driver failed: " + lg[-2000:])
-    terms = [case_coq(c, o) for c, o in zip(cases, obs)]
+    # a case on which the driver process died (a panic in the import goroutine cannot be recovered)
+    dead = [i for i, o in enumerate(obs) if "_fatal" in o]
+    live = [i for i in range(len(cases)) if i not in set(dead)]
+    terms = [case_coq(cases[i], obs[i]) for i in live]
     defs = {"SM": "spec_accepts"}
     if ctx.model_ok:
         defs["MM"] = "model_agrees"
     okc, res, lg = vlib.run_coq_cases(name, HEADER, terms, "ccase", defs, shard=40)
     if not okc:
         raise RuntimeError("coq evaluation failed: " + lg[-3000:])
-    return obs, res.get("MM", []), res["SM"]
+    mm = [live[j] for j in res.get("MM", [])]
+    sm = dead + [live[j] for j in res["SM"]]
+    # the makeConfig route: accepted iff the model accepts; an accepted mapping is safe
+    fl = [i for i in live if cases[i]["imports"][0].get("flags")]
+    if fl:
+        cterms = []
+        for i in fl:
+            c, im, io = cases[i], cases[i]["imports"][0], obs[i]["imports"][0]
+            sch = cq_list('mkField %s %s 0' % (TY_COQ[s["type"]], cq_str(s["name"].encode())) for s in c["schema"])
+            cterms.append("(%s, %s, %s, %s)" % (sch, cq_list(cq_str(d.encode()) for d in im["dst"]),
+                                                cq_list("(%d)%%Z" % s for s in im["flag_src"]),
+                                                cq_bool(io["cfg_route"] == "makeconfig")))
+        cdefs = {"SM": "config_safe"}
+        if ctx.model_ok:
+            cdefs["MM"] = "config_agrees"
+        okc, cres, lg = vlib.run_coq_cases(name + "_cfg", HEADER, cterms, "config_case", cdefs, shard=200)
+        if not okc:
+            raise RuntimeError("coq evaluation failed: " + lg[-3000:])
+        mm += [fl[j] for j in cres.get("MM", []) if fl[j] not in mm]
+        sm += [fl[j] for j in cres["SM"] if fl[j] not in sm]
+    for i in dead:
+        obs[i] = {"imports": [{"events": ["<the import process died: %s>" % str(obs[i]["_fatal"])[-300:]], "table": [],
+                               "reader": [], "cfg_route": "dead", "col_types": [], "atoi": []}
+                              for _ in cases[i]["imports"]]}
+    return obs, sorted(mm), sorted(sm)
 
 
 def shrink(ctx, case, which):
